@@ -17,6 +17,8 @@ import (
 	"time"
 
 	"github.com/beevik/etree"
+	"github.com/sdcio/cache/proto/cachepb"
+	"github.com/sdcio/data-server/pkg/cache"
 	dconfig "github.com/sdcio/data-server/pkg/config"
 	"github.com/sdcio/data-server/pkg/datastore/target"
 	"github.com/sdcio/data-server/pkg/datastore/target/netconf"
@@ -27,6 +29,7 @@ import (
 	"github.com/sdcio/data-server/pkg/utils"
 	sdcpb "github.com/sdcio/sdc-protos/sdcpb"
 	"google.golang.org/grpc/peer"
+	"google.golang.org/protobuf/proto"
 	"google.golang.org/protobuf/types/known/anypb"
 	"google.golang.org/protobuf/types/known/emptypb"
 )
@@ -517,6 +520,87 @@ func c20DeviceCases() []c20Case {
 	return cs
 }
 
+
+// ---------------------------------------------------------------------------
+// stored state x request: what the device reported (running store) differs in shape from what an intent holds
+
+type c20Stored struct {
+	Name string
+	TV   *sdcpb.TypedValue
+}
+
+func c20StoredValues() []c20Stored {
+	str := func(s string) *sdcpb.TypedValue { return &sdcpb.TypedValue{Value: &sdcpb.TypedValue_StringVal{StringVal: s}} }
+	uin := func(u uint64) *sdcpb.TypedValue { return &sdcpb.TypedValue{Value: &sdcpb.TypedValue_UintVal{UintVal: u}} }
+	ll := func(els ...*sdcpb.TypedValue) *sdcpb.TypedValue {
+		return &sdcpb.TypedValue{Value: &sdcpb.TypedValue_LeaflistVal{LeaflistVal: &sdcpb.ScalarArray{Element: els}}}
+	}
+	return []c20Stored{
+		{"ll-empty", ll()}, {"ll-a", ll(str("a"))}, {"ll-ab", ll(str("a"), str("b"))}, {"ll-abc", ll(str("a"), str("b"), str("c"))},
+		{"ll-ba", ll(str("b"), str("a"))}, {"ll-uint", ll(uin(1), uin(2), uin(3))}, {"ll-nil-elem", ll(str("a"), nil)}, {"ll-nil-array", &sdcpb.TypedValue{Value: &sdcpb.TypedValue_LeaflistVal{}}},
+		{"str", str("a")}, {"uint", uin(1400)}, {"int", &sdcpb.TypedValue{Value: &sdcpb.TypedValue_IntVal{IntVal: -1}}}, {"bool", &sdcpb.TypedValue{Value: &sdcpb.TypedValue_BoolVal{BoolVal: true}}},
+		{"empty", &sdcpb.TypedValue{Value: &sdcpb.TypedValue_EmptyVal{}}}, {"no-value", &sdcpb.TypedValue{}}, {"decimal-nil", &sdcpb.TypedValue{Value: &sdcpb.TypedValue_DecimalVal{}}},
+		{"identityref-nil", &sdcpb.TypedValue{Value: &sdcpb.TypedValue_IdentityrefVal{}}}, {"json", &sdcpb.TypedValue{Value: &sdcpb.TypedValue_JsonVal{JsonVal: []byte(`{"a":1}`)}}},
+		{"bytes", &sdcpb.TypedValue{Value: &sdcpb.TypedValue_BytesVal{BytesVal: []byte{0xff}}}}, {"undecodable", nil},
+	}
+}
+
+func c20StateCases() []c20Case {
+	var cs []c20Case
+	leaves := []struct {
+		Name   string
+		Intent Leaf
+	}{
+		{"leaf-list", leafLL([]string{"a", "b"}, "sys", "dns")},
+		{"leaf-list-in-list", leafLL([]string{"a", "b"}, "if", e1, "tags")},
+		{"leaf-list-uint", Leaf{P: P("refs", "ll"), LLU: []uint64{1, 2}}},
+		{"string", leaf("a", "sys", "hostname")},
+		{"uint", leaf("1400", "sys", "mtu")},
+		{"bool", leaf("true", "if", e1, "enabled")},
+		{"presence", leafEmpty("sys", "banner")},
+	}
+	for _, l := range leaves {
+		for _, sv := range c20StoredValues() {
+			l, sv := l, sv
+			cs = append(cs, c20Case{Kind: "stored:" + l.Name + ":" + strings.TrimRight(sv.Name, "0123456789"), Desc: fmt.Sprintf("running store holds %s at a %s leaf that an intent configures", sv.Name, l.Name), Run: func(env *c20Env) string {
+				w := env.world(WorldOpts{})
+				defer w.Close()
+				ctx := context.Background()
+				s := newServer(w)
+				set := func(id, owner string, prio int32, lf Leaf) error {
+					req := &sdcpb.TransactionSetRequest{DatastoreName: w.Name, TransactionId: id, Intents: []*sdcpb.TransactionIntent{
+						{Intent: owner, Priority: prio, Update: []*sdcpb.Update{{Path: lf.P.Sdcpb(), Value: lf.Value()}}}}}
+					_, err := s.TransactionSet(peerCtx(), req)
+					_, _ = s.TransactionConfirm(peerCtx(), &sdcpb.TransactionConfirmRequest{DatastoreName: w.Name, TransactionId: id})
+					return err
+				}
+				err1 := set("t1", "A", 10, l.Intent)
+				// the device reports something else for the same path
+				var b []byte
+				if sv.TV != nil {
+					b, _ = proto.Marshal(sv.TV)
+				} else {
+					b = []byte{0xff, 0xff, 0xff}
+				}
+				_ = w.Raw.Modify(ctx, w.Name, &cache.Opts{Store: cachepb.Store_CONFIG}, nil, []*cache.Update{cache.NewUpdate(utils.ToStrings(l.Intent.P.Sdcpb(), false, false), b, 0, "", 0)})
+				err2 := set("t2", "A", 10, l.Intent)                     // the same intent again
+				err3 := set("t3", "B", 20, leaf("x", "sys", "mtu-ext")) // an unrelated intent
+				err4 := set("t4", "C", 5, l.Intent)                      // a ruling intent for the path
+				st := &devStream{}
+				w.DS.VerifRunDeviationCycle(ctx, map[string]sdcpb.DataServer_WatchDeviationsServer{"client1": st})
+				r := errStr(err1)[:1] + errStr(err2)[:1] + errStr(err3)[:1] + errStr(err4)[:1]
+				for _, enc := range []sdcpb.Encoding{sdcpb.Encoding_STRING, sdcpb.Encoding_JSON, sdcpb.Encoding_JSON_IETF, sdcpb.Encoding_PROTO} {
+					gst := &getDataStream{ctx: peerCtx()}
+					err := s.GetData(&sdcpb.GetDataRequest{Name: w.Name, Path: []*sdcpb.Path{l.Intent.P[:1].Sdcpb()}, Encoding: enc, Datastore: &sdcpb.DataStore{Type: sdcpb.Type_MAIN}}, gst)
+					r += errStr(err)[:1]
+				}
+				return r
+			}})
+		}
+	}
+	return cs
+}
+
 // ---------------------------------------------------------------------------
 // driver
 
@@ -528,6 +612,7 @@ func c20AllCases() []c20Case {
 	cs := c20PathCases(maxLen)
 	cs = append(cs, c20RequestCases()...)
 	cs = append(cs, c20DeviceCases()...)
+	cs = append(cs, c20StateCases()...)
 	return cs
 }
 
